@@ -31,7 +31,9 @@ A_CModeCalls ==
    [m |-> <<"+", "o", "v">>, a |-> <<"a", "b">>], [m |-> <<"-", "o", "+", "h">>, a |-> <<"b", "a">>],
    [m |-> <<"+", "q", "a">>, a |-> <<"b", "b">>], [m |-> <<"-", "q", "a", "h", "v">>, a |-> <<"b", "b", "a", "b">>],
    [m |-> <<"o">>, a |-> <<"a">>], [m |-> <<"+", "o">>, a |-> <<>>], [m |-> <<"+", "X", "n">>, a |-> <<>>],
-   [m |-> <<"+", "n", "o">>, a |-> <<"zz">>]}
+   [m |-> <<"+", "n", "o">>, a |-> <<"zz">>],
+   [m |-> <<"+", "b", "o">>, a |-> <<"*!*@bad.host", "a">>], [m |-> <<"-", "e", "+", "v">>, a |-> <<"a", "b">>],
+   [m |-> <<"+", "I", "k">>, a |-> <<"b", "kk">>], [m |-> <<"+", "b">>, a |-> <<>>]}
 
 \* simulation universe: larger name space, a mix of everything
 S_Names == {"a", "b", "c", "d", "e", "f", ""}
